@@ -125,6 +125,7 @@ type desc struct {
 	Held     int          `json:"held,omitempty"`  // flood: reqs[:held] are stopped in their handlers (one per worker) while reqs[held:held+flood] are delivered
 	Flood    int          `json:"flood,omitempty"` // flood: the rest, reqs[held+flood:], is sent after release and quiescence
 	Late     int          `json:"late,omitempty"`
+	Burst    int          `json:"burst,omitempty"`           // flood on ONE resource: size of the burst (first request held, the others queued behind it)
 	Lookups  int          `json:"lookups,omitempty"`         // conc: goroutines calling Service.With / Service.Resource all the time ...
 	LookupPs []string     `json:"lookup_patterns,omitempty"` // ... on fresh names of these patterns (other resources, same token counts)
 	Procs    int          `json:"gomaxprocs,omitempty"`      // pair: run with this GOMAXPROCS (1 = both requests share per-P caches such as sync.Pool's)
@@ -2764,6 +2765,46 @@ func genTrailing(r *Rng, prop string, seq, k int) desc {
 
 // a service with a small in-channel (= initial work queue capacity) and few workers, all of them held in
 // stopped handlers, while many requests on distinct (and some repeated) resources are delivered
+// a burst of n requests for ONE resource (one worker group): the first one is held in its handler until the
+// listener has queued all the others behind it, so the group's own callback queue grows to n-1 entries and is
+// then worked off without ever draining in between; every request has its own method (served by the * handler)
+// and reply subject, so responses and handler invocations are counted per request
+func genBurst(prop string, gseed uint64, idx, n int) desc {
+	r := NewRng(gseed)
+	d := desc{Kind: "flood", Service: "fl", GenSeed: gseed, Burst: n, Held: 1, Flood: n - 1, Late: 3}
+	if n > 900 {
+		d.InCh = n + 64
+	}
+	short := func() []Action {
+		sc := genScript(r, replyKinds)
+		if len(sc) > 3 {
+			sc = sc[:3]
+		}
+		return sc
+	}
+	d.Patterns = []PatternDef{{Pattern: "q.$id", H: Handlers{Pid: 0, Call: map[string][]Action{"*": short(), "set": short()}, Auth: map[string][]Action{"*": short()}}}}
+	rn := "fl.q.b0"
+	for k := 0; k < n+d.Late; k++ {
+		typ := "call"
+		if k%7 == 3 {
+			typ = "auth"
+		}
+		m := fmt.Sprintf("m%d", k)
+		if k == 10 {
+			m, typ = "set", "call"
+		}
+		pk := 8
+		if r.Chance(10) {
+			pk = r.Intn(8)
+		}
+		rq := loadRequest(r, fmt.Sprintf("_INBOX.%s.bu%d.%d", prop, idx, k), rn, 20000+k, []string{m}, pk)
+		rq.Parts = []string{typ, rn, m}
+		rq.Subject = typ + "." + rn + "." + m
+		d.Reqs = append(d.Reqs, rq)
+	}
+	return d
+}
+
 func genFlood(prop string, gseed uint64, idx, inCh, workers, nflood, nlate int) desc {
 	r := NewRng(gseed)
 	d := desc{Kind: "flood", Service: "fl", GenSeed: gseed, InCh: inCh, Workers: workers, Flood: nflood, Late: nlate}
@@ -3081,6 +3122,9 @@ func main() {
 		if err := LoadReplay(o.Replay, &d); err != nil {
 			panic(err)
 		}
+		if d.Kind == "flood" && len(d.Reqs) == 0 && d.Burst > 0 {
+			d = genBurst(*prop, d.GenSeed, 0, d.Burst)
+		}
 		if d.Kind == "flood" && len(d.Reqs) == 0 {
 			d = genFlood(*prop, d.GenSeed, 0, d.InCh, d.Workers, d.Flood, d.Late)
 		}
@@ -3236,6 +3280,14 @@ func main() {
 			add(genFlood(*prop, r.Next(), 200, 0, 0, 3000, 20)) // the library's defaults: 1024 / 32
 			add(genFlood(*prop, r.Next(), 201, 64, 0, 400, 20))
 		}
+		// (d3) long per-group callback queues: bursts for one resource, sizes around powers of two and beyond
+		bursts := []int{65, 129, 258, 300}
+		if o.Tier == "thorough" {
+			bursts = []int{65, 129, 257, 258, 300, 513, 600, 1025, 1100, 2049}
+		}
+		for bi, n := range bursts {
+			add(genBurst(*prop, r.Next(), bi, n))
+		}
 		// (e) deterministic overlap of two requests on different worker groups
 		pairs := 60
 		if o.Tier == "thorough" {
@@ -3283,6 +3335,10 @@ func main() {
 					role = "late-request"
 				}
 				c := Case{Term: t, Desc: compact, Nontrivial: true, Tags: []string{"queue-flood", role}, Key: t}
+				if d.Burst > 0 {
+					c.Tags = []string{"group-burst", role}
+					dist["burst-member"]++
+				}
 				dist["flood-member"]++
 				dist["type:"+d.Reqs[j].Parts[0]]++
 				cases = append(cases, c)
@@ -3417,6 +3473,6 @@ func main() {
 			}
 		}
 	}
-	rule := "one request per case against a freshly served res.Service on a recording connection that hands a request to the service once per subscription whose subject matches (scripts of 0-6 actions per handler incl. ParseParams/ParseToken into typed targets, a third of the handler sets built through the Option API (GetModel/GetCollection/GetResource, Set, ...), 150 option lists with conflicts checked against the documented registration panics, panic values incl. real runtime errors: index out of range, nil map write, nil dereference, divide by zero, failed type assertion; product of request type x method case {named,*,none,new with/without New handler,empty} x resource matched/unmatched x handler present/absent x payload {full,partial,empty,{},null,6 undecodable texts} + random shapes + 72 requests to the root resource of a named service (the empty pattern) + malformed subjects + 80 degenerate but deliverable resource names (<service>., <service>..x, trailing dot, dots only, empty; all four types, named and unnamed services) + 2 rounds of 200 concurrent requests over 20 resource patterns, each request on its own resource name with payload values unique to it, handlers yielding before they read, compared per reply subject and per-request handler observations + 2 rounds of 200 requests on patterns with 12 path params routed while 4 goroutines call Service.With / Service.Resource on other names of the same token count (the load rounds have 3 such goroutines too); params and group expected in concurrent cases are derived from the subject with Pattern.Values + payloads that start with a valid JSON value (trailing bytes, two concatenated values, NUL/BOM/whitespace variants; validity judged by json.Valid on the bytes sent) + 126 requests on handler sets with sub-Muxes mounted (Mount/Route, depth 1-2, handlers added before/after mounting) under parent patterns that have placeholders at the mount position: names matching inside a mount, names entering a mount path but matching only a pattern of the parent / of the outer mount, near misses; expected path params and group always derived from subject + full registered pattern, never from the Mux + 6 queue-flood scenarios (in-channel size 1/2/4, 1-2 workers all held in stopped handlers, 40 requests on distinct and repeated resources delivered meanwhile, 6 more after release; thorough also the default 1024/32 with 3000 pending) + 60 overlap pairs: request A stopped inside its handler before (or between two) reads of its fields until request B on another worker group was processed completely, half of them under GOMAXPROCS=1); non-trivial = well-formed request whose pattern carries a non-empty script or whose payload does not decode; distinct by the whole case term"
+	rule := "one request per case against a freshly served res.Service on a recording connection that hands a request to the service once per subscription whose subject matches (scripts of 0-6 actions per handler incl. ParseParams/ParseToken into typed targets, a third of the handler sets built through the Option API (GetModel/GetCollection/GetResource, Set, ...), 150 option lists with conflicts checked against the documented registration panics, panic values incl. real runtime errors: index out of range, nil map write, nil dereference, divide by zero, failed type assertion; product of request type x method case {named,*,none,new with/without New handler,empty} x resource matched/unmatched x handler present/absent x payload {full,partial,empty,{},null,6 undecodable texts} + random shapes + 72 requests to the root resource of a named service (the empty pattern) + malformed subjects + 80 degenerate but deliverable resource names (<service>., <service>..x, trailing dot, dots only, empty; all four types, named and unnamed services) + 2 rounds of 200 concurrent requests over 20 resource patterns, each request on its own resource name with payload values unique to it, handlers yielding before they read, compared per reply subject and per-request handler observations + 2 rounds of 200 requests on patterns with 12 path params routed while 4 goroutines call Service.With / Service.Resource on other names of the same token count (the load rounds have 3 such goroutines too); params and group expected in concurrent cases are derived from the subject with Pattern.Values + payloads that start with a valid JSON value (trailing bytes, two concatenated values, NUL/BOM/whitespace variants; validity judged by json.Valid on the bytes sent) + 126 requests on handler sets with sub-Muxes mounted (Mount/Route, depth 1-2, handlers added before/after mounting) under parent patterns that have placeholders at the mount position: names matching inside a mount, names entering a mount path but matching only a pattern of the parent / of the outer mount, near misses; expected path params and group always derived from subject + full registered pattern, never from the Mux + 6 queue-flood scenarios (in-channel size 1/2/4, 1-2 workers all held in stopped handlers, 40 requests on distinct and repeated resources delivered meanwhile, 6 more after release; thorough also the default 1024/32 with 3000 pending) + same-resource bursts of 65/129/258/300 requests (thorough up to 2049) queued behind a held first request, responses and handler invocations counted per request + 60 overlap pairs: request A stopped inside its handler before (or between two) reads of its fields until request B on another worker group was processed completely, half of them under GOMAXPROCS=1); non-trivial = well-formed request whose pattern carries a non-empty script or whose payload does not decode; distinct by the whole case term"
 	Emit(o, *prop, "From GoRes Require Import Run.Run_"+*prop+".", "rcase", rule, cases, dist, map[string]interface{}{"children_crashed": dist["crashed"], "racing_lookups_made": totalLookups}, impl, 250)
 }
